@@ -42,6 +42,65 @@ fn verif_replay() {
         println!("VERIF-OUTCOME {}", out);
         return;
     }
+    if case["driver"].as_str() == Some("handshake_failure_record") {
+        // a client whose request cannot be read (wrong version byte / it hangs up in the middle): the connection was registered, so
+        // its record -- what the collector will log and put into the history -- must end in an error state with the error text.
+        // With "udp_setup_fails" the request is a fine UDP ASSOCIATE but no socket can be opened for it (descriptor limit reached).
+        let kind = a["kind"].as_str().unwrap_or("garbage").to_string();
+        let rt = tokio::runtime::Builder::new_current_thread().enable_all().build().unwrap();
+        let out = rt.block_on(async move {
+            use tokio::io::{AsyncReadExt, AsyncWriteExt};
+            let mut l: SocksListener = serde_yaml::from_str("name: s\nbind: 127.0.0.1:0\nallowUdp: true\n").unwrap();
+            l.init().await.unwrap();
+            let l = Arc::new(l);
+            let tcp = TcpListener::bind("127.0.0.1:0").await.unwrap();
+            let addr = tcp.local_addr().unwrap();
+            let k2 = kind.clone();
+            let client = tokio::spawn(async move {
+                let mut s = TcpStream::connect(addr).await.unwrap();
+                let mut buf = [0u8; 64];
+                match k2.as_str() {
+                    "garbage" => { s.write_all(&[9, 9, 9, 9]).await.ok(); }
+                    "hangup" => { s.write_all(&[5, 1]).await.ok(); }
+                    _ => {
+                        s.write_all(&[5, 1, 0]).await.ok();
+                        let _ = tokio::time::timeout(std::time::Duration::from_millis(500), s.read(&mut buf)).await;
+                        s.write_all(&[5, 3, 0, 1, 0, 0, 0, 0, 0, 0]).await.ok();
+                        let _ = tokio::time::timeout(std::time::Duration::from_millis(800), s.read(&mut buf)).await;
+                    }
+                }
+                tokio::time::sleep(std::time::Duration::from_millis(100)).await;
+            });
+            let (socket, source) = tcp.accept().await.unwrap();
+            let state: Arc<GlobalState> = Default::default();
+            let (tx, mut rx) = tokio::sync::mpsc::channel(4);
+            let mut restore = None;
+            if kind == "udp_setup_fails" {
+                // no descriptor left for the UDP relay socket
+                use nix::sys::resource::{getrlimit, setrlimit, Resource};
+                let open = std::fs::read_dir("/proc/self/fd").map(|d| d.count()).unwrap_or(64) as u64;
+                if let Ok((soft, hard)) = getrlimit(Resource::RLIMIT_NOFILE) {
+                    restore = Some((soft, hard));
+                    let _ = setrlimit(Resource::RLIMIT_NOFILE, open.saturating_sub(1).max(3), hard);
+                }
+            }
+            let r = tokio::time::timeout(std::time::Duration::from_secs(3), l.clone().handshake(socket, source, state.clone(), tx)).await;
+            if let Some((soft, hard)) = restore { let _ = nix::sys::resource::setrlimit(nix::sys::resource::Resource::RLIMIT_NOFILE, soft, hard); }
+            let routed = rx.try_recv().is_ok();
+            let _ = client.await;
+            // every reference is gone now: Drop has queued the record for the collector
+            let rec = state.contexts.gc_list.lock().unwrap().last().map(|p| serde_json::to_value(&**p).unwrap_or_default());
+            let (states, error) = match &rec {
+                Some(v) => (v["state"].as_array().map(|x| x.iter().map(|e| e["state"].as_str().unwrap_or("?").to_string()).collect::<Vec<_>>()).unwrap_or_default(), v["error"].as_str().map(|x| x.to_string())),
+                None => (vec![], None),
+            };
+            let terminal = states.last().map(|x| x == "ErrorOccured" || x == "Terminated").unwrap_or(false);
+            serde_json::json!({"panicked": false, "kind": kind, "handshake": format!("{:?}", r.map(|x| x.map_err(|e| e.to_string()))), "routed": routed, "record_found": rec.is_some(),
+                               "states": states, "error_text": error, "record_ends_in_a_terminal_state_with_text": terminal && error.is_some()})
+        });
+        println!("VERIF-OUTCOME {}", out);
+        return;
+    }
     if case["driver"].as_str() == Some("tunnel_after_reply") {
         // a real SOCKS client request goes through the real handshake; then what the dispatcher does after a successful connect:
         // the upstream side is attached (its local address IPv4 or IPv6), on_connect runs, the relay starts -- and the origin
